@@ -765,7 +765,7 @@ func runProperty(prop, tier string) int {
 
 	// --- exploration
 	passes := []bool{false}
-	if tier == "thorough" && os.Getenv("POLYSYM_NO_REVERSE") == "" {
+	if os.Getenv("POLYSYM_NO_REVERSE") == "" {
 		passes = append(passes, true)
 	}
 	for _, rev := range passes {
